@@ -1550,6 +1550,11 @@ impl<'i, R: RuleType> ParserState<'i, R> {
     /// ```
     #[inline]
     pub fn stack_peek(self: Box<Self>) -> ParseResult<Box<Self>> {
+        if self.call_tracker.call_refused {
+            // The parse is already bound to end with "call limit reached"; the stack may be in
+            // a state the grammar never produces, so do not panic on it.
+            return Err(self);
+        }
         let string = self
             .stack
             .peek()
@@ -1583,6 +1588,10 @@ impl<'i, R: RuleType> ParserState<'i, R> {
     /// ```
     #[inline]
     pub fn stack_pop(mut self: Box<Self>) -> ParseResult<Box<Self>> {
+        if self.call_tracker.call_refused {
+            // See `stack_peek`.
+            return Err(self);
+        }
         let string = self
             .stack
             .pop()
